@@ -64,7 +64,7 @@ class Check:
     def known(self):
         return []
 
-    def prepare_child(self):
+    def prepare_parent(self):
         pass
 
 
